@@ -682,6 +682,9 @@ var lazyFixed = []string{
 	"(defn f [#x n] (trace 100) (cond (== n 0) (force #x) (f (trace n) (- n 1)))) (f (trace 9) 2)",
 	"(defn f [#x n] (cond (== n 0) 0 (+ 1 (f (trace n) (- n 1))))) (f (trace 9) 2)",
 	"(defn strict [x] x) (def g strict) (g (trace 3))",
+	"(defn f [#x] (force #x)) (defn mkc [a] (fn [b] (f (trace (+ a b))))) (def a 100) (def b 200) ((mkc 7) 3)",
+	"(def k nil) (defn f [#x] (set k (fn [] (force #x))) 0) (defn mkc [a] (fn [b] (f (trace (+ a b))))) (def a 100) (def b 200) ((mkc 7) 3) (k) (let [a 1 b 2] (k))",
+	"(defn f [#x] (let [a 50 b 60] ((fn [] (force #x))))) (defn mkc [a] (fn [b] (let [c 1] (f (trace (+ a (+ b c))))))) ((mkc 7) 3)",
 	"(def order \"\") (defn choose [] (set order (concat order \"c\")) (fn [x] order)) ((choose) (set order (concat order \"a\")))",
 	"(force 1) (force) (substitute 2) (substitute)",
 	"(force 1 2)",
